@@ -16,6 +16,15 @@ CHECKS = {
  "C04": ("fault_enumeration", "runtime fault injection on execution traces: honest Traces of generated programs are forged (table cell, slot value on all tables, constants, public cells), labelled by an independent op-relation evaluator, proven with the honest prover data and shown to the real verifier",
          "Enumerated single-fault classes on ALU/Const/Public tables of generated circuits in 8 field setups; a forgery labelled unsatisfying must be rejected. Non-primitive rows are covered at row level by C11 and for the challenger by C06. Coordinated multi-cell attacks are outside the explored set.",
          "DESIGN.md §3 C04", TRUSTED),
+ "C05": ("exploration", "differential runtime monitor over call histories: random interleavings of observe/sample/sample_bits/check_pow_witness/clear are executed by the in-circuit challenger (real runner) and by the native DuplexChallenger; every sampled value, bit vector and PoW verdict compared",
+         "Random histories biased to buffer boundaries over 12 challenger configurations (Poseidon1/2, D1/D2/D4/D5-over-D1, recompose table on/off); distinct buffer-state paths are counted in the evidence.",
+         "DESIGN.md §3 C05", TRUSTED),
+ "C06": ("fault_enumeration", "runtime fault injection with deviating executors: histories are run with a permutation executor / decomposition hints that deviate on values the verifier does not fix, the traces are proven with the honest prover data and verified; accepted proofs must carry the native challenges",
+         "Per configuration: every limb class (rate, capacity, single limb, high coefficients) x value kinds x permutation index, plus non-canonical decomposition hints; 8 provable configurations x recompose on/off.",
+         "DESIGN.md §3 C06", TRUSTED),
+ "C19": ("fault_enumeration", "runtime fault injection on the runner API executed under two build profiles and under the Miri interpreter: each (circuit, input fault) is run by the release binary, by a dev-profile build and (sample) under Miri; outcomes compared, Ok on a faulted run or any UB report is a violation",
+         "Faults: inputs withheld / short / long / set twice / conflicting, private data missing / duplicated / wrong type / wrong size / unknown op, non-boolean direction bit; circuits whose inputs feed ALU rows, hints and Poseidon2 rows (sponge, chained, Merkle) directly.",
+         "DESIGN.md §3 C19", TRUSTED),
  "C07": ("fault_enumeration", "differential runtime monitor at the PCS boundary: native TwoAdicFriPcs/HidingFriPcs verify vs the in-circuit FRI verifier on honest proofs, on every single-leaf mutation of the proof/claims/commitments and on prover-side faults (deviating challenger)",
          "Parameter grid (blow-up, queries, arity schedules, final-poly length, PoW bits, batches of mixed heights) with an exhaustive leaf sweep per honest proof; verdict agreement is the oracle.",
          "DESIGN.md §3 C07", TRUSTED),
